@@ -467,6 +467,10 @@ class Check:
             self.count('stream:' + stream)
             self.seen((stream, req))
             case = dict(meta, stream=stream, request=req, impl=got, model=model, spec=spec)
+            if spec != '-':
+                self.count('stream:%s:judged-by-spec' % stream)
+            if model == 'EUnmodelled':
+                self.count('stream:%s:outside-model' % stream)
             if model == 'bad-op':
                 raise RuntimeError('driver rejected request %r' % req)
             if spec != '-' and (canon(got) if canon else got) != spec:
